@@ -285,6 +285,27 @@ class Gen:
         return self.agg(0, top=True)
 
 
+def add_zero_size_members(rng, t):
+    """GNU C extensions c2mir accepts with a warning: zero-length arrays and empty structs as members
+    (outside C11 and outside wf_ty: compared between c2m and gcc only, see gnuext_part in checks/c08.py)"""
+    if is_agg(t):
+        ms = []
+        for m in t[1]:
+            if m[0] in 'no':
+                m = (m[0], add_zero_size_members(rng, m[1]))
+            ms.append(m)
+            if rng.random() < 0.15:
+                k = rng.random()
+                el = ('b', rng.choice(KINDS))
+                ms.append(('n', ('a', 0, el)) if k < 0.6 else ('n', ('s', [])) if k < 0.8 else ('n', ('a', 0, ('s', [('n', ('b', 'short'))]))))
+        if rng.random() < 0.1:
+            ms.insert(0, ('n', ('a', 0, ('b', rng.choice(['char', 'int', 'long'])))))
+        return (t[0], ms)
+    if t[0] == 'a':
+        return ('a', t[1], add_zero_size_members(rng, t[2]))
+    return t
+
+
 def est_size(t):
     """rough size in bytes (padding ignored): only used to bias the generator"""
     k = t[0]
